@@ -300,9 +300,11 @@ class CSSMediaRule(cssrule.CSSRuleRules):
         """
         self._checkReadonly()
         if isinstance(media, str):
-            self._media = cssutils.stylesheets.MediaList(
-                mediaText=media, parentRule=self
-            )
+            new = cssutils.stylesheets.MediaList(mediaText=media, parentRule=self)
+            if media.strip() and not new.wellformed and hasattr(self, '_media'):
+                # refused (reported by the list): the media stay as they are
+                return
+            self._media = new
         else:
             media._parentRule = self
             self._media = media
